@@ -162,9 +162,13 @@ Definition ex_s (k : nat) : sample :=
 Definition ex_state : fstate :=
   mkF "f" (fun _ => 1%Q) (fun _ => false) [ex_s 0; ex_s 1; ex_s 2] [] [] None 6 3 30 0 (fun _ => 0%Q).
 
+(** (a hand-written plan and formula, so that the example does not depend on the generated plans) *)
+Definition ex_f : cterm := CGe (XSub (XVar 0) (XVar 1)) (XInner (PVar 3) (PSub (PVar 0) (PVar 2))).
+Definition ex_plan : list plan_item := [Pairs LPoints LPoints "convexity" ex_f false].
+
 Example C17_example :
-  let out := run_plan plan_ConvexFunction ex_state in
-  plan_ConvexFunction = [] ++ Pairs LPoints LPoints "convexity" f_ConvexFunction_convexity_constraint_i_j false :: [] /\
+  let out := run_plan ex_plan ex_state in
+  ex_plan = [] ++ Pairs LPoints LPoints "convexity" ex_f false :: [] /\
   get_list ex_state LPoints <> [] /\
   (exists t, g_tables out = [t] /\
      duals_table (fun p => inject_Z (Z.of_nat p)) t
